@@ -117,7 +117,19 @@ func (m *Mast) Delete(ctx context.Context, key, value interface{}) error {
 		return fmt.Errorf("savePathForRoot: %w", err)
 	}
 	m.size--
-	for m.size < m.shrinkBelowSize && m.height > 0 {
+	for m.height > 0 {
+		if m.size > m.shrinkBelowSize {
+			// enough entries for this height: it stays, unless the top node
+			// has lost its last key (no key of this layer or above remains)
+			var top *mastNode
+			top, err = m.load(ctx, m.root)
+			if err != nil {
+				return fmt.Errorf("load root: %w", err)
+			}
+			if len(top.Key) > 0 {
+				break
+			}
+		}
 		err = m.shrink(ctx)
 		if err != nil {
 			return fmt.Errorf("shrink: %w", err)
